@@ -17,6 +17,8 @@ MODE_KEYS = {
     "preview": ("preview", False),
 }
 
+from .common import stale_bindings
+
 
 def check(repo: Repo, rep, tier):
     rep.not_decided = "black's idempotence and what it does with a long value; the property's observation needs the formatter to run"
@@ -24,6 +26,7 @@ def check(repo: Repo, rep, tier):
     result_unmodified(repo, rep)
     one_mode(repo, rep)
     mode_table(repo, rep)
+    stale_bindings(repo, rep, None, "e.g. a copied `config` never sees the format-command of the session, so whole-file and fragment formatting disagree")
 
 
 def result_unmodified(repo: Repo, rep):
